@@ -6,6 +6,7 @@ import (
 
 	"github.com/unixpickle/model3d/model2d"
 	"github.com/unixpickle/model3d/model3d"
+	"github.com/unixpickle/model3d/toolbox3d"
 
 	"verif/lib/ev"
 	"verif/lib/lat"
@@ -36,8 +37,31 @@ func lip3(t model3d.Transform, pts []model3d.Coord3D) float64 {
 	return l
 }
 
+// invLip3: Lipschitz constant of the inverse of one transform of the alphabet. Linear maps: the operator norm of the
+// inverse's matrix (columns by finite differences, exact for a linear map; largest singular value by power iteration).
+// AxisSqueeze is piecewise linear with slope `Ratio` inside its interval: max(1, 1/Ratio). The product over a sequence
+// bounds the Lipschitz constant of the composite inverse from above, wherever its pieces lie - a sampled estimate
+// misses a squeezed slab that is thinner than the sampling lattice.
+func invLip3(t model3d.Transform) float64 {
+	if sq, ok := t.(*toolbox3d.AxisSqueeze); ok {
+		return math.Max(1, 1/sq.Ratio)
+	}
+	inv := t.Inverse()
+	o := inv.Apply(model3d.Coord3D{})
+	cols := [3]model3d.Coord3D{inv.Apply(model3d.X(1)).Sub(o), inv.Apply(model3d.Y(1)).Sub(o), inv.Apply(model3d.Z(1)).Sub(o)}
+	v := model3d.XYZ(0.577, 0.577, 0.578)
+	n := 0.0
+	for i := 0; i < 60; i++ {
+		w := cols[0].Scale(v.X).Add(cols[1].Scale(v.Y)).Add(cols[2].Scale(v.Z)) // J v
+		n = w.Norm()
+		v = model3d.XYZ(cols[0].Dot(w), cols[1].Dot(w), cols[2].Dot(w)) // J^T J v
+		v = v.Normalize()
+	}
+	return n * (1 + 1e-6)
+}
+
 func checkConj3(r *ev.Run, maxLen int) {
-	b := base3()[:13] // translations, scales, matrices, rotations: the linear part of the alphabet
+	b := base3()[:15] // translations, scales, matrices, rotations and the two piecewise-linear squeezes
 	type sol struct {
 		name string
 		s    model3d.Solid
@@ -59,8 +83,21 @@ func checkConj3(r *ev.Run, maxLen int) {
 		}
 	}
 	rec(nil)
+	// sandwiches: a squeeze between two rotations / general matrices that do not undo each other. The image of the
+	// solid's box is then a polyhedron with a kink that is not the image of a box corner - bounds of the meshing
+	// space taken from corner images would clip it. (All of them are part of the length-3 enumeration of the
+	// thorough tier; the quick tier stops at length 2 and adds these.)
+	if maxLen < 3 {
+		outer := []int{6, 7, 8, 9, 10, 11, 12}
+		for _, a := range outer {
+			for _, m := range []int{13, 14} {
+				for _, c := range outer {
+					seqs = append(seqs, []int{a, m, c})
+				}
+			}
+		}
+	}
 	const iters = 6
-	probe := lattice3(3, 4)
 	ev.Parallel(len(seqs), 0, func(si int) {
 		seq := seqs[si]
 		xs := make([]model3d.Transform, len(seq))
@@ -75,10 +112,9 @@ func checkConj3(r *ev.Run, maxLen int) {
 				det = -det
 			}
 		}
-		inv := model3d.JoinedTransform(xs).Inverse()
 		L := 1.0
-		if len(xs) > 0 {
-			L = lip3(inv, probe)
+		for _, x := range xs {
+			L *= invLip3(x)
 		}
 		for _, so := range sols {
 			r.Eval(1)
